@@ -49,16 +49,20 @@ type Prog struct {
 	ssa     *ssaState
 	initial []*packages.Package
 
-	neverNilFn    map[*Func]bool
-	helperOf      map[*Func]*helperSite
-	wrapCache     map[*Func][]ast.Expr
-	baselineKnown map[string]bool   // unexported function names of the tree the rules were written for
-	sharedHelpers map[*Func][]*Func // caller -> private helpers with several call sites it calls
-	predCache     map[*Func]*predSummary
-	alias         map[*types.Func]string // renamed unexported functions: object -> baseline canonical name
-	renamed       map[string]string      // baseline name -> current name
-	inWalk        map[*Func]bool
-	holdsState    *State // state of the Holds query in progress (for pruning join alternatives)
+	neverNilFn      map[*Func]bool
+	helperOf        map[*Func]*helperSite
+	localAlias      map[types.Object]string
+	fieldAlias      map[*types.Var]string
+	fieldByOld      map[string]*types.Var
+	localAliasByPos map[token.Pos]string
+	wrapCache       map[*Func][]ast.Expr
+	baselineKnown   map[string]bool   // unexported function names of the tree the rules were written for
+	sharedHelpers   map[*Func][]*Func // caller -> private helpers with several call sites it calls
+	predCache       map[*Func]*predSummary
+	alias           map[*types.Func]string // renamed unexported functions: object -> baseline canonical name
+	renamed         map[string]string      // baseline name -> current name
+	inWalk          map[*Func]bool
+	holdsState      *State // state of the Holds query in progress (for pruning join alternatives)
 }
 
 func loadProg(dir string) (*Prog, error) {
@@ -213,6 +217,8 @@ func loadProg(dir string) (*Prog, error) {
 		ast.Inspect(fn.Decl.Body, visit)
 	}
 	p.resolveRenames()
+	p.resolveLocalRenames()
+	p.resolveFieldRenames()
 	return p, nil
 }
 
@@ -341,6 +347,9 @@ func (p *Prog) Field(name string) *types.Var {
 			return st.Field(i)
 		}
 	}
+	if v, ok := p.fieldByOld[name]; ok {
+		return v // renamed field
+	}
 	return nil
 }
 
@@ -401,7 +410,11 @@ func (p *Prog) fieldNames() map[*types.Var]string {
 				continue
 			}
 			for i := 0; i < st.NumFields(); i++ {
-				fieldNameCache[st.Field(i)] = p.pkgName[pk.PkgPath] + "." + n + "." + st.Field(i).Name()
+				fname := st.Field(i).Name()
+				if a, ok := p.fieldAlias[st.Field(i)]; ok {
+					fname = a
+				}
+				fieldNameCache[st.Field(i)] = p.pkgName[pk.PkgPath] + "." + n + "." + fname
 			}
 		}
 	}
@@ -506,7 +519,7 @@ func (p *Prog) Src(e ast.Node) string {
 		return "<nil>"
 	}
 	if ex, ok := e.(ast.Expr); ok {
-		s := types.ExprString(ex)
+		s := types.ExprString(p.aliased(ex))
 		if len(s) > 120 {
 			s = s[:117] + "..."
 		}
